@@ -26,7 +26,9 @@ import ECAgent.Environments as Envs
 import ECAgent.Batching as Batching
 from ECAgent.Collectors import Collector, AgentCollector
 
-KINDS = ['plain', 'grid', 'space', 'swap']       # swap: the model alternates between two worlds (day / night)
+# swap: the model alternates between two worlds (day / night); late_seed: the model is built unseeded, lets the framework
+# pick once, and is handed its seed afterwards by installing a seeded generator as model.random
+KINDS = ['plain', 'grid', 'space', 'swap', 'late_seed']
 CROWD = 600          # more agents than any small-scope threshold a fast path might use
 
 META = {
@@ -107,7 +109,7 @@ class Gift(Core.System):
     def _add(self, a):
         m = self.model
         env = m.environment
-        if m.kind in ('plain', 'crowd'):
+        if m.kind in ('plain', 'crowd', 'late_seed'):
             env.add_agent(a)
         elif m.kind in ('grid', 'swap'):
             env.add_agent(a, m.random.randrange(env.width), m.random.randrange(env.height))
@@ -129,7 +131,7 @@ class Walk(Core.System):
         env = m.environment
         tr = m.systems['trace'].records
         tr.append(('exec', self.id, m.systems.timestep, m.random.random()))     # draws even in the plain model
-        if m.kind in ('plain', 'crowd'):
+        if m.kind in ('plain', 'crowd', 'late_seed'):
             return
         for a in env.shuffle():
             if m.kind in ('grid', 'swap'):
@@ -172,7 +174,7 @@ def _even(seed):
 
 class SModel(Core.Model):
     def __init__(self, kind='plain', seed=1, n=5, horizon=None):
-        super().__init__(seed=seed)
+        super().__init__(seed=None if kind == 'late_seed' else seed)
         self.kind = kind
         if kind == 'crowd':
             n = CROWD
@@ -198,6 +200,10 @@ class SModel(Core.Model):
             if i != 1:
                 a.add_component(Marker(a, self))
             gift._add(a)
+        if kind == 'late_seed':
+            self.environment.get_random_agent(Wealth)       # a smoke check of the population (result not used)
+            self.environment.shuffle()
+            self.random = random.Random(seed)
 
 
 class OptModel(SModel):
@@ -351,7 +357,7 @@ def interleaving_cases(tier, seed):
     s1, s2, s3 = seed * 1000 + 1, seed * 1000 + 2, seed * 1000 + 3
     steps = 2 if tier == 'quick' else 3
     combos = [[['plain', s1], ['grid', s2]], [['grid', s1], ['space', s2]], [['plain', s1], ['plain', s1]],
-              [['space', s2], ['plain', s2]], [['swap', s1], ['grid', f'run-{seed}']],
+              [['space', s2], ['plain', s2]], [['swap', s1], ['grid', f'run-{seed}']], [['late_seed', s1], ['plain', s2]],
               # seeds that compare equal but are different seeds for random.Random (int / float)
               [['plain', -3 - seed], ['plain', -3.0 - seed]], [['grid', 10 ** 20], ['grid', 1e20]]]
     if tier == 'thorough':
